@@ -6,6 +6,14 @@ HERE = os.path.dirname(os.path.dirname(os.path.abspath(__file__)))
 
 # id -> (category, technique, text, note)
 CLAIMED = {
+ "C14": ("other", "symbolic folding of the dofs guard chains over their finite documented domain, polynomial normal forms of label-wise vs homogeneous formulas and of numba summands vs kernel definitions, exhaustive folding of the polynomial index decoding (ast)",
+         "Decides: every documented dofs value (None, 'all', every sub-list in both orders) of the five model classes reaches exactly one "
+         "update call with the parameter slots routed in declaration order; combined models compose sequentially and consume parameters "
+         "left to right; the label-wise linear model applies the homogeneous formula per label under a well-typed resolution guard; static "
+         "thresholds use the same strict operators in both variants; clipping uses one pair of bounds; the accelerated kernel sums have "
+         "the same summand as the kernel definition for every n; the polynomial space of degree 0..4 enumerates exactly the monomials of "
+         "total degree <= d. Not decided: kernel interpolation reproducing values at its supports (conditioning), affine-ness as numbers.",
+         "Trusted: python ast parser; sa/fold.py symbolic folder; sa/algebra.py; np.sum(np.multiply(x,y),axis=-1) treated as an opaque function of (x,y)."),
  "C13": ("other", "value-chain extraction of the staged pipeline per configuration branch, linear normal forms of the four difference options, effect summary of the probe argument (ast)",
          "Decides for every input and both stage orders: the stages run in the documented order, each on exactly the previous stage's "
          "result, each being the identity when its operator is absent; the four difference options are I-B, clip0(I-B), clip0(B-I), "
